@@ -326,7 +326,18 @@ func (w *wireCtx) classifyEmitters() {
 		kindsMemo[name] = kinds
 		return kinds
 	}
+	// every method is classified from depth 0 with a memo of its own: a result computed as somebody's
+	// callee near the depth limit is truncated, and handing it on through a shared memo made the class
+	// of a method depend on the order in which the map of methods was walked
+	var names []string
 	for name := range w.methods {
+		names = append(names, name)
+	}
+	sort.Strings(names)
+	for _, name := range names {
+		for k := range kindsMemo {
+			delete(kindsMemo, k)
+		}
 		w.class[name] = summarise(name, kindsOf(name, 0))
 	}
 }
